@@ -1,9 +1,9 @@
 (* C16 -- template application edits exactly what the template names.  Statements only; proofs in Proofs.ReactorProofs.
    Model.Reactor mirrors chython/reactor/base.py (BaseReactor._get_deleted as it is after fix: b90326c, the structural
    part of BaseReactor._patcher) and chython/reactor/reactor.py:fix_mapping_overlap. *)
-From Coq Require Import ZArith List Bool.
-From Model Require Import PyBase Graph Reactor.
-From Proofs Require Import ReactorProofs.
+From Coq Require Import ZArith List Bool Permutation.
+From Model Require Import PyBase Graph Reactor ReactorStage.
+From Proofs Require Import ReactorProofs ReactorExt ReactorEquiv.
 Import ListNotations.
 Open Scope Z_scope.
 
@@ -343,3 +343,127 @@ Theorem C16_equivariant_example :
   sorted_res (get_deleted (rename_graph (fun x => x + 10) wit2_g) (rename_match (fun x => x + 10) wit2_mapping) wit2_to_del) = Ok [12; 13; 14; 16].
 Proof. exact equivariant_example. Qed.
 Print Assumptions C16_equivariant_example.
+
+(* ====================================================================================================
+   The loops around _patcher (Model.ReactorStage): Transformer.__call__, Reactor._single_stage, Reactor.__call__ one_shot.
+   The matcher, split() and the canonical string of the yielded reaction are Section variables: every statement is for
+   ALL such functions (for `cord`, the iteration order of the set `collision`: for every permutation).
+   ==================================================================================================== *)
+(* Transformer.__call__: on real matches nothing raises and the product list is the image of the match list, in order *)
+Theorem C16_transformer_call_image : forall to_del tpl matches g,
+  wf_mol g = true -> (forall x, In x (ids g) -> 0 < x) -> ids g <> [] -> wf_template tpl = true ->
+  (forall mp, In mp matches -> real_match to_del tpl g mp) ->
+  exists prods, transformer_call to_del tpl matches g = (prods, None) /\
+                Forall2 (patched to_del tpl g) matches prods /\ length prods = length matches.
+Proof. exact transformer_call_image. Qed.
+Print Assumptions C16_transformer_call_image.
+
+(* without hypotheses: the products are the image of a prefix of the match list (the generator stops where _patcher raises) *)
+Theorem C16_transformer_call_prefix : forall to_del tpl matches g prods e,
+  transformer_call to_del tpl matches g = (prods, e) ->
+  Forall2 (patched to_del tpl g) (firstn (length prods) matches) prods /\
+  (e = None -> length prods = length matches).
+Proof. exact transformer_call_prefix. Qed.
+Print Assumptions C16_transformer_call_prefix.
+
+(* reduce(or_, chosen) of well-formed molecules that share no number is their concatenation, and is well-formed *)
+Theorem C16_union_all_disjoint : forall chosen,
+  chosen <> [] -> Forall (fun m => wf_mol m = true) chosen -> all_disjoint (map ids chosen) ->
+  exists u, union_all chosen = Ok u /\ wf_mol u = true /\ ids u = flat_map ids chosen.
+Proof. exact union_all_disjoint. Qed.
+Print Assumptions C16_union_all_disjoint.
+
+(* one stage at molecule level: unique numbers, none shared with the molecules that take no part, others unchanged *)
+Theorem C16_stage_one_numbers : forall to_del tpl (cord : list Z -> list Z),
+  (forall l x, In x (cord l) <-> In x l) ->
+  forall united ignored mp out,
+    stage_one to_del tpl cord united ignored mp = Ok out ->
+    wf_mol united = true -> (forall x, In x (ids united) -> 0 < x) ->
+    exists new, patched to_del tpl united mp new /\
+      length (ids out) = length (ids new) /\ NoDup (ids out) /\ (forall x, In x (ids out) -> ~ In x ignored) /\
+      (forall i d, ~ In (nth i (ids new) d) ignored -> nth i (ids out) d = nth i (ids new) d).
+Proof. exact stage_one_numbers. Qed.
+Print Assumptions C16_stage_one_numbers.
+
+(* ... and on a real match it never raises (Graph.remap never refuses the collision mapping) *)
+Theorem C16_stage_one_total : forall to_del tpl (cord : list Z -> list Z) united ignored mp,
+  wf_mol united = true -> (forall x, In x (ids united) -> 0 < x) -> ids united <> [] -> wf_template tpl = true ->
+  real_match to_del tpl united mp ->
+  exists out, stage_one to_del tpl cord united ignored mp = Ok out.
+Proof. exact stage_one_total. Qed.
+Print Assumptions C16_stage_one_total.
+
+(* Reactor.__call__ (one_shot): one reaction per distinct key; every yielded reaction comes from a choice of k different
+   reactants and one match of that choice through the stage; its products, spectators included, share no atom number *)
+Theorem C16_one_shot_sound : forall to_del tpl (matcher : list nat -> list (list (Z * Z))) (cord : list Z -> list Z)
+    (splitf : mol -> list mol) (K : Type) (key_eqb : K -> K -> bool) (key : cand -> K),
+  (forall l x, In x (cord l) <-> In x l) ->
+  (forall m, Permutation (flat_map ids (splitf m)) (ids m)) ->
+  (forall a b, key_eqb a b = true <-> a = b) ->
+  forall S k cs e,
+    one_shot to_del tpl matcher cord splitf K key_eqb key S k = (cs, e) -> good S -> (0 < k)%nat ->
+    NoDup (map key cs) /\
+    forall c, In c cs ->
+      NoDup (c_chosen c) /\ length (c_chosen c) = k /\ (forall i, In i (c_chosen c) -> (i < length S)%nat) /\
+      stage_fact to_del tpl matcher cord splitf S c /\ NoDup (flat_map ids (c_products c)).
+Proof. exact one_shot_sound. Qed.
+Print Assumptions C16_one_shot_sound.
+
+(* when the matcher returns real matches nothing raises, every (choice, match) pair gives a candidate and the key of every
+   candidate is among the keys of what is yielded: the yielded list is the image of the match lists, one per key.
+   (Independence of the reactant numbering therefore reduces to equivariance of the matcher, of the key and of _patcher.) *)
+Theorem C16_one_shot_complete : forall to_del tpl (matcher : list nat -> list (list (Z * Z))) (cord : list Z -> list Z)
+    (splitf : mol -> list mol) (K : Type) (key_eqb : K -> K -> bool) (key : cand -> K),
+  (forall a b, key_eqb a b = true <-> a = b) ->
+  forall S, good S -> Forall (fun m => ids m <> []) S -> wf_template tpl = true ->
+  forall k, (0 < k)%nat -> real_matcher to_del tpl matcher S (perms_k k (seq 0 (length S))) ->
+  exists cs, one_shot to_del tpl matcher cord splitf K key_eqb key S k = (cs, None) /\
+    forall chosen j mp, In chosen (perms_k k (seq 0 (length S))) -> nth_error (matcher chosen) j = Some mp ->
+      exists c, c_chosen c = chosen /\ c_match c = j /\ stage_fact to_del tpl matcher cord splitf S c /\ In (key c) (map key cs).
+Proof. exact one_shot_complete. Qed.
+Print Assumptions C16_one_shot_complete.
+
+(* what is yielded for a key is the FIRST candidate with that key *)
+Theorem C16_dedupe_first : forall (K : Type) (key_eqb : K -> K -> bool) (key : cand -> K),
+  (forall a b, key_eqb a b = true <-> a = b) ->
+  forall l seen c, In c (dedupe K key_eqb key seen l) ->
+    exists l1 l2, l = l1 ++ c :: l2 /\ forall c', In c' l1 -> key c' <> key c.
+Proof. exact dedupe_first. Qed.
+Print Assumptions C16_dedupe_first.
+
+(* non-vacuity: acetaldehyde + ammonia + spectator methane; the new atom collides with the spectator and is renumbered *)
+Theorem C16_one_shot_example :
+  good os_S /\ Forall (fun m => ids m <> []) os_S /\ wf_template os_tpl = true /\
+  real_matcher [] os_tpl os_matcher os_S (perms_k 2 (seq 0 (length os_S))) /\
+  map cand_sig (fst (one_shot [] os_tpl os_matcher (fun l => l) (fun m => [m]) Z Z.eqb (fun c => Z.of_nat (c_match c)) os_S 2))
+    = [([0%nat; 1%nat], 0%nat, [1; 2; 3; 4; 5; 6])].
+Proof. exact one_shot_example. Qed.
+Print Assumptions C16_one_shot_example.
+
+(* ====================================================================================================
+   _patcher commutes with a renumbering of the structure (Graph.remap by s), dict orders included: the product of the
+   renumbered structure under the renumbered match is the renumbered product, where the k-th new atom (number mx + k)
+   becomes mx' + k (mx, mx' = the largest number before / after renumbering)
+   ==================================================================================================== *)
+Theorem C16_patcher_equivariant : forall g s mapping tpl del new mp' mx mx',
+  wf_mol g = true -> (forall x, In x (ids g) -> 0 < x) ->
+  (forall a b, In a (ids g) -> In b (ids g) -> s a = s b -> a = b) -> (forall x, In x (ids g) -> 0 < s x) ->
+  zmax_list (ids g) = Some mx -> zmax_list (map s (ids g)) = Some mx' ->
+  (forall k v, In (k, v) mapping -> In v (ids g)) -> (forall x, In x del -> In x (ids g)) ->
+  patcher g mapping tpl del = Ok (new, mp') ->
+  patcher (rename_mol s g) (rename_match s mapping) tpl (map s del) =
+    Ok (rename_mol (extend_renumbering s mx mx') new, rename_match (extend_renumbering s mx mx') mp').
+Proof. exact patcher_equivariant. Qed.
+Print Assumptions C16_patcher_equivariant.
+
+Theorem C16_patcher_equivariant_example :
+  let s := fun x => 10 - x in
+  (forall a b, In a (ids ex_mol) -> In b (ids ex_mol) -> s a = s b -> a = b) /\ (forall x, In x (ids ex_mol) -> 0 < s x) /\
+  zmax_list (ids ex_mol) = Some 6 /\ zmax_list (map s (ids ex_mol)) = Some 9 /\
+  (forall k v, In (k, v) ex_mapping -> In v (ids ex_mol)) /\
+  exists new mp', patcher ex_mol ex_mapping ex_tpl [5; 6] = Ok (new, mp') /\
+    patcher (rename_mol s ex_mol) (rename_match s ex_mapping) ex_tpl (map s [5; 6]) =
+      Ok (rename_mol (extend_renumbering s 6 9) new, rename_match (extend_renumbering s 6 9) mp') /\
+    ids (rename_mol (extend_renumbering s 6 9) new) = [8; 7; 6; 10; 9].
+Proof. exact patcher_equivariant_example. Qed.
+Print Assumptions C16_patcher_equivariant_example.
